@@ -1101,7 +1101,7 @@ pub fn case(tier: &str, seed: u64, case: u64) -> CaseResult {
 	// and through the node's own sync loop (E12 syncsim): the real SyncRunner / HeaderSync / StateSync /
 	// BodySync on its own thread, gated sleeps, simulated wall clock
 	if res.violations.is_empty() && !fat {
-		crate::syncsim::runs_for_c16(&world, &mut res, seed, case, long, quiet, thorough);
+		crate::syncsim::runs_for_c16(&mut world, &mut res, seed, case, long, quiet, thorough);
 	}
 	world.cleanup();
 	res.wall_s = t0.elapsed().as_secs_f64();
